@@ -335,8 +335,9 @@ def encode_log_to_tree(log: list):
 
 # ------------------------------------------------------------------------------------ real code, property
 
-def et_shape(e: ET.Element):
-    return (e.tag, tuple(sorted(e.attrib)), tuple(et_shape(c) for c in e))
+def et_shape(e: ET.Element, unordered: bool = False):
+    kids = [et_shape(c, unordered) for c in e]
+    return (e.tag, tuple(sorted(e.attrib)), tuple(sorted(kids) if unordered else kids))
 
 
 def ref_decode(schema, source, strip_cdata: bool):
@@ -474,7 +475,8 @@ def roundtrip(ctx: Ctx, u: Unit, cname: str, opts: dict, want_log=False) -> dict
     b = ref_decode(u.schema, xml2, strip)
     if et_shape(ET.fromstring(xml2)) != et_shape(ET.fromstring(u.xml)):
         res['outcome'] = 'structure-differs'
-        report(ctx, 'element structure / attribute sets differ after decode+encode', case, {'xml2': xml2})
+        report(ctx, 'element structure / attribute sets differ after decode+encode', case,
+               {'xml2': xml2, 'reordered_only': et_shape(ET.fromstring(xml2), True) == et_shape(ET.fromstring(u.xml), True)})
         return res
     if not L.values_equal(a, b):
         res['outcome'] = 'values-differ'
@@ -621,6 +623,8 @@ def known_match(case: dict, detail: Any) -> Optional[str]:
             return 'C05-F4'
         if cname in COLLAPSING and detail.get('diff') and 'cdata-in-run' in doc_shapes(case):
             return 'C05-F6'
+        if cname in COLLAPSING and detail.get('reordered_only'):
+            return 'C05-F9'
         if cname == 'default' and detail.get('error') == 'validation' and 'list-elem' in doc_shapes(case) and \
                 'is not an instance of' in str(detail.get('msg', '')):
             return 'C05-F7'
@@ -1139,7 +1143,7 @@ def run(ctx: Ctx, driver_ok: bool) -> None:
 
 def search(ctx: Ctx) -> None:
     if ctx.quick():
-        explore(ctx, None, 150, 4, 6)
+        explore(ctx, None, 80, 4, 4)
 
 
 def replay(ctx: Ctx, obj: dict) -> int:
